@@ -621,6 +621,29 @@ def _pad(x, pad, value=0):
     return SymTensor.from_array(out, x.dtype)
 
 
+def _index_pad(mode):
+    """replication / reflection padding: every output element is one of the input elements (index map built with numpy on an index grid)"""
+    def h(x, pad):
+        X = to_arr(x)
+        pw = [(0, 0)] * X.ndim
+        for i in range(len(pad) // 2):
+            pw[X.ndim - 1 - i] = (int(pad[2 * i]), int(pad[2 * i + 1]))
+        idx = np.arange(X.size).reshape(X.shape)
+        idx = np.pad(idx, pw, mode=mode)
+        flat = X.reshape(-1)
+        out = np.empty(idx.shape, dtype=object)
+        for pos in np.ndindex(*idx.shape):
+            out[pos] = flat[idx[pos]]
+        return SymTensor.from_array(out, x.dtype)
+    return h
+
+
+for _name, _mode in (('replication_pad1d', 'edge'), ('replication_pad2d', 'edge'), ('replication_pad3d', 'edge'),
+                     ('reflection_pad1d', 'reflect'), ('reflection_pad2d', 'reflect'), ('reflection_pad3d', 'reflect')):
+    if hasattr(aten, _name):
+        HANDLERS[getattr(aten, _name).default] = _index_pad(_mode)
+
+
 def _pair(v, n=2):
     if isinstance(v, (list, tuple)):
         return list(v) * n if len(v) == 1 else list(v)
